@@ -29,14 +29,35 @@ type G struct {
 	NoForge bool
 }
 
-func (g *G) Int(label string, lo, hi int) int { return rapid.IntRange(lo, hi).Draw(g.T, label) }
+// Uniform draws an integer in [lo, hi] with (practically) uniform probability. rapid's own integer
+// generators are deliberately biased towards small values and range ends, which is what one wants for
+// lengths and amounts but not for "which alternative" choices: with them a 25% branch is taken far
+// less often than that and late alternatives of a list are starved. 20 fair bits, reduced modulo the
+// range size (for ranges up to 2^14 the modulo bias is below 2%).
+func Uniform(t *rapid.T, label string, lo, hi int) int {
+	if hi <= lo {
+		return lo
+	}
+	n := uint64(hi - lo + 1)
+	bits := rapid.SliceOfN(rapid.Bool(), 20, 20).Draw(t, label)
+	var v uint64
+	for _, b := range bits {
+		v <<= 1
+		if b {
+			v |= 1
+		}
+	}
+	return lo + int(v%n)
+}
+
+func (g *G) Int(label string, lo, hi int) int { return Uniform(g.T, label, lo, hi) }
 func (g *G) Bool(label string) bool           { return rapid.Bool().Draw(g.T, label) }
-func (g *G) Pct(label string, p int) bool     { return rapid.IntRange(0, 99).Draw(g.T, label) < p }
+func (g *G) Pct(label string, p int) bool     { return Uniform(g.T, label, 0, 99) < p }
 func (g *G) Bytes(label string, n int) []byte {
 	return rapid.SliceOfN(rapid.Byte(), n, n).Draw(g.T, label)
 }
 func Pick[T any](g *G, label string, xs []T) T {
-	return xs[rapid.IntRange(0, len(xs)-1).Draw(g.T, label)]
+	return xs[Uniform(g.T, label, 0, len(xs)-1)]
 }
 
 // NKeys is the size of the attester key universe used by history generators.
